@@ -146,8 +146,12 @@ def show(t):
 
 def corpus_facts(root=None):
     """extract facts of harness/corpus with the driver (its own cargo invocation: the wrapper only applies to workspace members)"""
-    root = root or facts.REPO
     facts.ensure_driver()
+    with facts.locked("corpus"):
+        return _corpus_facts(root or facts.REPO)
+
+
+def _corpus_facts(root):
     src = os.path.join(facts.VERIF, "harness", "corpus")
     work = os.path.join(facts.CACHE, "corpus")
     os.makedirs(os.path.join(work, "src"), exist_ok=True)
@@ -291,7 +295,7 @@ def run(run_, ctx):
         except Exception as e:
             run_.note("configuration C (alloc without std) not analysed: %s" % e)
     n = check_corpus(run_, ctx)
-    run_.floor("D", 27)
+    run_.floor("D", 29)
     run_.explanation = (
         "Every `impl Schema` constant of postcard-schema (58 in the std configuration) is read as a resolved HIR tree and compared with the oracle row for its self type; "
         "unknown impls fail closed. A corpus crate of derived types is compiled against /repo's derive and analysed by the same driver: per type the serde_derive-generated "
